@@ -463,7 +463,14 @@ impl<T: 'static> ArcAsyncDerived<T> {
         // if this was marked dirty before notifications began, this means it
         // had been notified while loading; marking it clean will cause it not to
         // run on the next tick of the async loop, so here it should be left dirty
-        inner.write().or_poisoned().state = prev_state;
+        //
+        // if another thread was already notifying when we began, `prev_state` is
+        // its `Notifying`, not a state to go back to: that call restores the real
+        // one. Writing `Notifying` back after it has finished would leave the state
+        // there for good, and `mark_dirty` would be ignored from then on.
+        if prev_state != AsyncDerivedState::Notifying {
+            inner.write().or_poisoned().state = prev_state;
+        }
     }
 }
 
